@@ -267,6 +267,14 @@ shape!(
 );
 
 shape!(
+    dbg1,
+    inputs = DbgArg,
+    answer = dyn (for<'u> Fn(&'u Unimock, DbgArg) -> u64) + Send + Sync,
+    idx = |i| arg_index(i.0, 0),
+    closure = |uid, seg| move |u: &Unimock, x: DbgArg| run_prog(ProgKind::Answer { uid, seg }, x.0, 0, &mut ref_port(u))
+);
+
+shape!(
     u16ref1,
     inputs = u16,
     answer = dyn (for<'u> Fn(&'u Unimock, u16) -> u64) + Send + Sync,
@@ -296,6 +304,7 @@ fn clause_for(spec: &ClauseSpec, uids: &[u16]) -> DynClause {
         M::S0 => ref1::clause(SkipMock::s0, spec, uids),
         M::S1 => ref1::clause(SkipMock::s1, spec, uids),
         M::S2 => ref1::clause(SkipMock::s2, spec, uids),
+        M::D0 => dbg1::clause(DbgTMock::d0, spec, uids),
         other @ (M::LendA | M::LendB | M::LendMut | M::Lent | M::LendClone | M::LendVia | M::OwnSingle | M::OwnMulti
         | M::OwnOpt | M::OwnRes | M::OwnTup | M::OwnTup1 | M::OwnVec) => {
             panic!("{other:?} is configured through Config::specials")
